@@ -371,10 +371,10 @@ theorem inv_appendOne (d : Nat) (st : State) (h : Inv st) : Inv (appendOne d st)
       rw [upd_other _ _ _ _ h1]
       exact h.removedEmpty x (fun e => hx' (Or.inl e))
     · intro g hg
-      show (st.gsubs g ++ (mkSubs st.nSub d st.groups).filter (fun s => s.group == g)).map (·.data)
-          = (st.datasets ++ [d]).map some
-      rw [List.map_append, List.map_append, h.groupDatas g hg]
-      congr 1
+      show ((st.gsubs g ++ (mkSubs st.nSub d st.groups).filter (fun s => s.group == g)).map (·.data)).Perm
+          ((st.datasets ++ [d]).map some)
+      rw [List.map_append, List.map_append]
+      refine List.Perm.append (h.groupDatas g hg) ?_
       have hg' : g ∈ (mkSubs st.nSub d st.groups).map (·.group) := by rw [mkSubs_map_group]; exact hg
       obtain ⟨a, ha, rfl⟩ := List.mem_map.1 hg'
       rw [filter_eq_singleton (·.group) _ _ (mkSubs_map_group _ _ _) h.nodupG a ha]
@@ -449,10 +449,12 @@ theorem inv_removeOne (d : Nat) (st : State) (h : Inv st) : Inv (removeOne true 
       · rw [upd_other _ _ _ _ hxd]
         exact h.removedEmpty x (fun e => hx ((hmem x).2 ⟨hxd, e⟩))
     · intro g hg
-      show ((if g ∈ st.groups then (st.gsubs g).filter (fun s => !(s.data == some d)) else st.gsubs g)).map (·.data)
-          = (st.datasets.erase d).map some
-      rw [if_pos hg, ← map_some_erase _ _ h.nodupD, ← h.groupDatas g hg, List.filter_map]
-      rfl
+      show (((if g ∈ st.groups then (st.gsubs g).filter (fun s => !(s.data == some d)) else st.gsubs g)).map
+          (·.data)).Perm ((st.datasets.erase d).map some)
+      rw [if_pos hg, ← map_some_erase _ _ h.nodupD]
+      have := (h.groupDatas g hg).filter (fun y => !(y == some d))
+      rw [List.filter_map] at this
+      exact this
     · intro g s hs
       change s ∈ (if g ∈ st.groups then (st.gsubs g).filter (fun s => !(s.data == some d)) else st.gsubs g) at hs
       split at hs
@@ -551,7 +553,8 @@ theorem inv_newGroup (st : State) (h : Inv st) : Inv (newGroup st) := by
         (fun p => p.1 == x)).map (·.2) = []
     rw [h.removedEmpty x hx, zip_new_not_mem _ _ _ _ hx]; rfl
   · intro g hg'
-    show ((upd st.gsubs st.nGroup (mkSubsD st.nSub st.nGroup st.datasets)) g).map (·.data) = st.datasets.map some
+    show (((upd st.gsubs st.nGroup (mkSubsD st.nSub st.nGroup st.datasets)) g).map (·.data)).Perm
+        (st.datasets.map some)
     rcases List.mem_append.1 hg' with hg' | hg'
     · have : g ≠ st.nGroup := fun e => hg (e ▸ hg')
       rw [upd_other _ _ _ _ this]; exact h.groupDatas g hg'
@@ -673,7 +676,7 @@ theorem map_eq_self {α : Type} (f : α → α) (l : List α) (h : ∀ a ∈ l, 
     rw [h a (List.mem_cons_self ..), ih (fun b hb => h b (List.mem_cons_of_mem _ hb))]
 
 /-- `Inv` does not look at the command stack. -/
-theorem inv_stack (st : State) (h : Inv st) (a b : List (Bool × Nat)) :
+theorem inv_stack (st : State) (h : Inv st) (a b : List DCmd) :
     Inv { st with done := a, undone := b } :=
   ⟨h.nodupD, h.nodupG, h.subsEq, h.dBound, h.gBound, h.dataGroups, h.subData, h.removedEmpty,
     h.groupDatas, h.subGroup, h.groupAttached, h.attachedListed⟩
@@ -698,7 +701,7 @@ theorem restore_eq (st : State) (h : Inv st) : restore st = { st with done := []
       apply map_eq_self
       intro s hs
       have h1 : s.data ∈ (st.gsubs g).map (·.data) := List.mem_map.2 ⟨s, hs, rfl⟩
-      rw [h.groupDatas g hg] at h1
+      rw [(h.groupDatas g hg).mem_iff] at h1
       obtain ⟨d, hd, hsd⟩ := List.mem_map.1 h1
       have h2 := h.groupAttached g hg s hs d hsd.symm
       have : st.datasets.find? (fun d => (st.dsubs d).contains s) = some d := by
@@ -774,21 +777,59 @@ theorem inv_setItem (key d : Nat) (st : State) (h : Inv st) : Inv (setItem true 
     exact ⟨h.nodupD, h.nodupG, h.subsEq, h.dBound, h.gBound, h.dataGroups, h.subData, h.removedEmpty,
       h.groupDatas, h.subGroup, h.groupAttached, h.attachedListed⟩
 
-theorem inv_cmdDo (c : Bool × Nat) (st : State) (h : Inv st) : Inv (cmdDo true c st) := by
+/-- `Inv` looks at the order of the collection only through `groupDatas`, which is up to
+permutation: the datasets may be listed in any order. -/
+theorem inv_perm_datasets (st : State) (h : Inv st) (D : List Nat) (hp : D.Perm st.datasets) :
+    Inv { st with datasets := D } :=
+  { nodupD := hp.nodup_iff.2 h.nodupD, nodupG := h.nodupG, subsEq := h.subsEq,
+    dBound := fun d hd => h.dBound d (hp.mem_iff.1 hd), gBound := h.gBound,
+    dataGroups := fun d hd => h.dataGroups d (hp.mem_iff.1 hd), subData := h.subData,
+    removedEmpty := fun d hd => h.removedEmpty d (fun e => hd (hp.mem_iff.2 e)),
+    groupDatas := fun g hg => (h.groupDatas g hg).trans (hp.map some).symm,
+    subGroup := h.subGroup, groupAttached := h.groupAttached,
+    attachedListed := fun d hd => h.attachedListed d (hp.mem_iff.1 hd) }
+
+/-- `insert(i, d)` is `append(d)` followed by moving `d` from the end to position `i` (the
+`DataCollectionAddMessage` broadcast does not look at the collection's list). -/
+theorem insertOne_eq (i d : Nat) (st : State) (hc : ¬ (d ∈ st.datasets ∨ st.nData ≤ d)) :
+    insertOne i d st =
+      { appendOne d st with datasets := st.datasets.insertIdx (min i st.datasets.length) d } := by
+  unfold insertOne appendOne
+  rw [if_neg hc, if_neg hc, foldl_addData, foldl_addData]
+
+theorem datasets_appendOne (d : Nat) (st : State) (hc : ¬ (d ∈ st.datasets ∨ st.nData ≤ d)) :
+    (appendOne d st).datasets = st.datasets ++ [d] := by
+  unfold appendOne
+  rw [if_neg hc, foldl_addData]
+
+theorem inv_insertOne (i d : Nat) (st : State) (h : Inv st) : Inv (insertOne i d st) := by
+  by_cases hc : d ∈ st.datasets ∨ st.nData ≤ d
+  · unfold insertOne; rw [if_pos hc]; exact h
+  · rw [insertOne_eq i d st hc]
+    apply inv_perm_datasets _ (inv_appendOne d st h)
+    rw [datasets_appendOne d st hc]
+    exact (List.perm_insertIdx d st.datasets (Nat.min_le_right _ _)).trans
+      (List.perm_append_singleton d st.datasets).symm
+
+theorem inv_cmdDo (c : DCmd) (st : State) (h : Inv st) : Inv (cmdDo true c st) := by
   unfold cmdDo
   split
   · exact inv_appendOne _ st h
   · exact inv_removeOne _ st h
 
-theorem inv_cmdUndo (c : Bool × Nat) (st : State) (h : Inv st) : Inv (cmdUndo true c st) := by
+/-- whatever the command object recorded (any flag, any position — other operations may have
+changed the collection since), undoing it keeps the invariant. -/
+theorem inv_cmdUndo (c : DCmd) (st : State) (h : Inv st) : Inv (cmdUndo true c st) := by
   unfold cmdUndo
   split
-  · exact inv_removeOne _ st h
-  · exact inv_appendOne _ st h
+  · split
+    · exact inv_removeOne _ st h
+    · exact inv_insertOne _ _ st h
+  · exact h
 
-theorem inv_doCmd (c : Bool × Nat) (st : State) (h : Inv st) : Inv (doCmd true c st) := by
+theorem inv_doCmd (add : Bool) (d : Nat) (st : State) (h : Inv st) : Inv (doCmd true add d st) := by
   unfold doCmd
-  exact inv_stack _ (inv_cmdDo c _ (inv_stack st h _ _)) _ _
+  exact inv_stack _ (inv_cmdDo _ _ (inv_stack st h _ _)) _ _
 
 theorem inv_undoCmd (st : State) (h : Inv st) : Inv (undoCmd true st) := by
   unfold undoCmd
@@ -819,9 +860,10 @@ theorem inv_step (st : State) (op : Op) (h : Inv st) : Inv (step true st op) := 
   | setLabel g v => exact inv_setVal g (fun x => { x with label := .user v }) st h
   | setStyle g v => exact inv_setVal g (fun x => { x with style := .user v }) st h
   | merge ds => exact inv_merge ds st h
+  | insert i d => exact inv_insertOne i d st h
   | setItem key d => exact inv_setItem key d st h
   | restore => exact inv_restore st h
-  | doCmd add d => exact inv_doCmd (add, d) st h
+  | doCmd add d => exact inv_doCmd add d st h
   | undo => exact inv_undoCmd st h
   | redo => exact inv_redoCmd st h
 
@@ -850,14 +892,14 @@ theorem groupOk_of_inv {st : State} (h : Inv st) (g : Nat) (hg : g ∈ st.groups
   · intro s hs
     refine ⟨h.subGroup g s hs, ?_⟩
     have h1 : s.data ∈ (st.gsubs g).map (·.data) := List.mem_map.2 ⟨s, hs, rfl⟩
-    rw [h.groupDatas g hg] at h1
+    rw [(h.groupDatas g hg).mem_iff] at h1
     obtain ⟨d, hd, hsd⟩ := List.mem_map.1 h1
     exact ⟨d, hd, hsd.symm, h.groupAttached g hg s hs d hsd.symm⟩
   · intro d hd s hs
     by_cases hsg : s.group = g
     · right; exact hsg ▸ h.attachedListed d hd s hs
     · left; exact hsg
-  · have := congrArg List.length (h.groupDatas g hg)
+  · have := (h.groupDatas g hg).length_eq
     simpa using this
 
 theorem removedGroupOk_of_inv {st : State} (h : Inv st) (g : Nat) : removedGroupOk st g = true := by
